@@ -416,7 +416,29 @@ def rule_sel_axis(repo, tier):
     for ev, ex in pths:
         for e in ev:
             if e[0] == 'assume' and 'len(self.kernel)' in src(e[1]):
-                multi = (e[2] and ('> 1' in src(e[1]) or '>= 2' in src(e[1]))) or (not e[2] and ('== 1' in src(e[1]) or '<= 1' in src(e[1]) or '< 2' in src(e[1])))
+                def _truth(n_, test=e[1]):
+                    # the test `len(self.kernel) <op> k` (either orientation) evaluated for n_ kernels
+                    import operator as _op
+                    OPS = {ast.Gt: _op.gt, ast.GtE: _op.ge, ast.Lt: _op.lt, ast.LtE: _op.le, ast.Eq: _op.eq, ast.NotEq: _op.ne}
+                    neg_ = False
+                    while isinstance(test, ast.UnaryOp) and isinstance(test.op, ast.Not):
+                        test, neg_ = test.operand, not neg_
+                    if not (isinstance(test, ast.Compare) and len(test.ops) == 1 and type(test.ops[0]) in OPS):
+                        return None
+                    vals = []
+                    for side in (test.left, test.comparators[0]):
+                        if isinstance(side, ast.Constant) and isinstance(side.value, int):
+                            vals.append(side.value)
+                        elif 'len(self.kernel)' in src(side) and isinstance(side, ast.Call):
+                            vals.append(n_)
+                        else:
+                            return None
+                    r_ = OPS[type(test.ops[0])](vals[0], vals[1])
+                    return (not r_) if neg_ else r_
+                t1, t2 = _truth(1), _truth(2)
+                if t1 is None or t2 is None or t1 == t2:
+                    continue
+                multi = (bool(e[2]) == t2)                         # this path is the one several kernels take
                 comps = [n for x in ev if x[0] == 'stmt' for n in ast.walk(x[1]) if isinstance(n, (ast.ListComp, ast.GeneratorExp))]
                 for c in comps:
                     g = c.generators[0]
@@ -1087,6 +1109,12 @@ def _effective_compare(mask_expr):
         return None
     if neg:
         op = {'<': '>=', '<=': '>', '>': '<=', '>=': '<'}[op]
+    # orientation: the data side on the left, the threshold (a constant or a hyper-parameter self.x) on the right - `self.delta > input.sqrt()` is `input.sqrt() < self.delta`
+    def is_threshold(x):
+        return isinstance(x, ast.Constant) or (dotted(x) or '').startswith('self.')
+    if is_threshold(e.left) and not is_threshold(e.comparators[0]):
+        e = ast.copy_location(ast.Compare(e.comparators[0], [e.ops[0]], [e.left]), e)
+        op = {'<': '>', '<=': '>=', '>': '<', '>=': '<='}[op]
     return e, op
 
 
